@@ -553,8 +553,13 @@ def slice_faces_plane(
         return final_vert, final_face, final_uv
 
     # Extract the intersections of each triangle's edges with the plane
-    o = cut_triangles  # origins
-    d = np.roll(o, -1, axis=1) - o  # directions
+    # walk every edge from its lower to its higher vertex index, so that the two
+    # triangles sharing an edge compute bit-identical intersection points
+    cut_faces = faces[onedge]
+    cut_next = np.roll(cut_faces, -1, axis=1)
+    flip = cut_faces > cut_next
+    o = vertices[np.where(flip, cut_next, cut_faces)]  # origins
+    d = vertices[np.where(flip, cut_faces, cut_next)] - o  # directions
     num = (plane_origin - o).dot(plane_normal)  # compute num/denom
     denom = np.dot(d, plane_normal)
     denom[denom == 0.0] = 1e-12  # prevent division by zero
@@ -785,7 +790,10 @@ def slice_mesh_plane(
             edges = geometry.faces_to_edges(f)
             edges.sort(axis=1)
 
-            on_plane = np.abs(vertices_2D[:, 2]) < 1e-8
+            # 1e-8 is below the rounding of the transform for large coordinates
+            on_plane = np.abs(vertices_2D[:, 2]) < 1e-8 * max(
+                1.0, np.abs(vertices).max(initial=0.0)
+            )
             edges = edges[on_plane[edges].all(axis=1)]
             edges = edges[edges[:, 0] != edges[:, 1]]
 
